@@ -199,16 +199,16 @@ func round3(f float64) float64 { return float64(int64(f*1000+0.5)) / 1000 }
 
 // W is a worker-local accumulator; merge is done when the worker ends. Not safe for concurrent use.
 type W struct {
-	r           *Run
-	evals       int64
-	ntEnum      int64
-	classes     map[string]int64
-	samples     []any
-	fails       map[string]*failRec
-	knownHit    map[string]int64
-	cur         any // case being judged (for panic reports)
+	r        *Run
+	evals    int64
+	ntEnum   int64
+	classes  map[string]int64
+	samples  []any
+	fails    map[string]*failRec
+	knownHit map[string]int64
+	cur      any // case being judged (for panic reports)
 	// Prev is free for a judge to keep the previous case of this worker in (histories of the form A, B, A).
-	Prev any
+	Prev        any
 	scratch     []byte
 	flip        bool
 	scratchLast string
